@@ -145,6 +145,43 @@ def witness_cases(c, n_shards, per_witness, seed, max_cases=None, extra_sizes=((
     return shards, len(cases)
 
 
+STRING_TEMPLATES = [
+    b"\x1bP0;0;0!zAB\x1b[1mC\x1b\\", b"\x1bP1;0;1!z414243\x1b\\", b"\x1bP2;0;1!z41!3;4243;44\x1b\\", b"\x1bP0;1;0!z\x1b\\",
+    b"\x1bPCTerm:Font:5:AAAA\x1b\\", b"\x1bP0;0;0q\"1;1;4;6#0;2;0;0;0#0~~@@-~~\x1b\\", b"\x1bPq#1!5~$-!3?\x1b\\", b"\x1bPgarbage\x1b\\",
+    b"\x1b]8;;http://a.b\x1b\\", b"\x1b]8;id=1;http://a.b\x1b\\", b"\x1b]8;;\x1b\\", b"\x1b]8\x1b\\", b"\x1b]4;1;rgb:ff/00/80\x1b\\", b"\x1b]4;999;rgb:zz\x1b\\",
+    b"\x1b]104\x1b\\", b"\x1b]0;title\x07", b"\x1b_aps string\x1b\\", b"\x1b^pm string\x1b\\", b"\x1bXsos\x1b\\",
+    b"\x1b[MFT120O3L8CDE P4 >A#<B-.\x0e", b"\x1b[NMBO6B####\x0e", b"\x1b[|T255L64O0N84\x0e", b"\x1b[38;2;1;2;3m", b"\x1b[0;1;40;2 D", b"\x1b[=1;2;3{", b"\x1b[?1;2;3S",
+]
+
+
+def string_mutation_cases(c, thorough):
+    """every control string of the sub-languages (DCS macro / font / sixel, OSC, APS / PM / SOS, music, long CSI) with one byte
+    >= 0x80 (a two-byte character once stored in a Rust String), a NUL or an ESC REPLACING or INSERTED BEFORE every byte of
+    the payload, and with every truncation of the payload that keeps the terminator: indexing a stored string by bytes where
+    characters were counted (or the reverse) only shows with such input"""
+    cases = []
+    emus = ("ansi", "avatar", "pcboard") if thorough else ("ansi",)
+    for ti, t in enumerate(STRING_TEMPLATES):
+        term = 2 if t.endswith(b"\x1b\\") else 1
+        body = range(2, len(t) - term + 1)
+        muts = []
+        for pos in body:
+            for b in (0xE9, 0xFF, 0x80, 0x00, 0x1B):
+                if pos < len(t) - term:
+                    muts.append(t[:pos] + bytes([b]) + t[pos + 1:])
+                muts.append(t[:pos] + bytes([b]) + t[pos:])
+            muts.append(t[:pos] + t[len(t) - term:])
+        for mi, m in enumerate(muts):
+            for emu in emus:
+                cases.append({"id": f"str-{ti}-{mi}-{emu}", "emu": emu, "music": 3 if b"[M" in t or b"[N" in t or b"[|" in t else 0, "w": 80, "h": 25, "alloc": mi % 2, "bs": 0,
+                              "proj": "geo", "model": 0, "bytes": list(m + b"A")})
+    path = os.path.join(c.workdir, "cases-strings.ndjson")
+    with open(path, "w") as f:
+        for cs in cases:
+            f.write(json.dumps(cs, separators=(",", ":")) + "\n")
+    return ("strings", path), len(cases)
+
+
 def mc_slices(c, thorough):
     depth = 4 if thorough else 3
     for sl in ("cursor", "margins", "content", "tabs", "avatar", "ctrla", "petscii", "viewdata", "mode7", "atascii"):
